@@ -178,6 +178,17 @@ theorem merge_terminates_without_the_fuel (x hx : GX L D) (f left right : Nat) (
 theorem script_on_any_graph_keeps_indices_in_range (text : List Char) (x : GX Lb.Label Hx.Hex) (h : MSX x) :
     MSX (Ss.deployX text x).1.x := Ss.msx_deployX text x h
 
+/-- what the first loop of `join` does: in every vertex of the list (the present ones) every edge into `frm` is re-targeted to `to`
+    in place — labels, their order and every other edge stay; no other vertex is touched -/
+theorem join_retargets_in_place (ks : List Nat) (frm to : Nat) (g : G L D) (v : Nat) :
+    edg (retargetAll g ks frm to) v = if v ∈ ks ∧ v < cap g then retarget (edg g v) frm to else edg g v :=
+  edg_retargetAll ks frm to g v
+
+/-- after a completed `join` the slot is gone: a removed slot, not a key, not readable -/
+theorem join_removes_the_slot (x : GX L D) (left right : Nat) (h : (joinX x left right).2 = true) :
+    right ∈ (joinX x left right).1.holes ∧ right ∉ keysX (joinX x left right).1 ∧ (joinX x left right).1.acc right = false :=
+  joinX_removes x left right h
+
 /-! non-vacuity: the smallest situation in which `join` runs. Left: ν0 with kids ν1 (label 0) and ν2 (label 1). A right
     graph whose root has *one* kid under both labels maps that kid to ν1 in the first loop; the second loop then finds ν2
     under label 1 and calls `join(ν2, ν1)` — the step `fix 0 1 1`: the edge into ν1 is re-targeted to ν2 and slot 1 is
